@@ -16,11 +16,9 @@ package props
 import (
 	"encoding/json"
 	"fmt"
-	"runtime"
 	"sort"
 	"strings"
 	"sync"
-	"sync/atomic"
 	"testing"
 	"time"
 
@@ -60,27 +58,6 @@ type c12Case struct {
 	// (pseudo-randomly from Noise), which stretches the gaps between the
 	// locked steps of composite requests.
 	Noise int `json:"noise,omitempty"`
-}
-
-// c12Noise is the PointHook of a noisy case.
-type c12Noise struct {
-	seed uint64
-	n    uint64
-}
-
-func (z *c12Noise) hook(ctx *core.Context, namespace string, metric string, val interface{}, unit string, more ...string) {
-	if !strings.HasPrefix(metric, "Count") {
-		return // (two points per timer: act on one)
-	}
-	k := atomic.AddUint64(&z.n, 1)
-	switch (k*2654435761 + z.seed*40503) % 8 {
-	case 4, 5:
-		runtime.Gosched()
-	case 6:
-		time.Sleep(40 * time.Microsecond)
-	case 7:
-		time.Sleep(250 * time.Microsecond)
-	}
 }
 
 // c12SlowStore delays writes (see StoreDelayUs).
@@ -314,7 +291,7 @@ var c12Model = porcupine.Model{
 
 func c12Exec(loc *core.Location, in c12In) c12Out { return c12ExecNoisy(loc, in, nil) }
 
-func c12ExecNoisy(loc *core.Location, in c12In, noise *c12Noise) c12Out {
+func c12ExecNoisy(loc *core.Location, in c12In, noise *schedNoise) c12Out {
 	ctx := newCtx()
 	ctx.SetLoc(loc)
 	if noise != nil {
@@ -428,9 +405,11 @@ func runC12Once(c c12Case, o *vlib.Outcome) *vlib.Outcome {
 	if c.Hooks {
 		w.withCronHooks()
 	}
-	var noise *c12Noise
+	var noise *schedNoise
 	if c.Noise > 0 {
-		noise = &c12Noise{seed: uint64(c.Noise)}
+		var stop func()
+		noise, stop = startNoise(c.Noise)
+		defer stop()
 		w.ctrl.NoTiming = false
 		o.Label("schedule-noise")
 	}
